@@ -134,7 +134,12 @@ def jobs(tier, seed):
             last = max([i for i, e in enumerate(events) if e in ('add', 'addsub', 'grow', 'grownew', 'apply', 'flatten')], default=-1)
             events.insert(rng.randint(last + 1, len(events)), 'hold')
             events.append(rng.choice(['enter', 'setreg', 'leave', 'enter']))
-        out.append({'prog': prog, 'events': events, 'final': final})
+        job = {'prog': prog, 'events': events, 'final': final}
+        # many independent symbolic durations in parallel branches make the number of orderings (paths) explode: draw the fixed
+        # durations of large programs from a pool of two symbolic values (the growth / registry values stay independent)
+        if gen.count_leaves(prog) + sum(1 for e in events if e in ('add', 'addsub', 'grow', 'grownew', 'setreg')) >= 6:
+            job['pool'] = 2
+        out.append(job)
     return out
 
 
@@ -185,7 +190,7 @@ def sig(o):
 
 def play(ctx, params, with_observations: bool, g_out, g_in, stack):
     """Runs the history; returns the final observations."""
-    built = cm.build(ctx, params['prog'])
+    built = cm.build(ctx, params['prog'], dur_pool=params.get('pool', 0))
     circuit = built.circuit
     holder = {'circuit': circuit}
     retained = circuit.operations if params.get('final') == 'retained' else []   # objects the user holds from the start (part of both histories)
@@ -348,7 +353,7 @@ def run(ctx, params):
     if not any(e in ('add', 'addsub', 'grow', 'grownew', 'apply', 'flatten') for e in params['events']):
         final_globals = g_in if fa['inside_override'] else g_out
         with final_globals.override():
-            built = cm.build(ctx, params['prog'])
+            built = cm.build(ctx, params['prog'], dur_pool=params.get('pool', 0))
             if 'setreg' in params['events']:
                 for i, key in enumerate(built.reg_keys):
                     built.registry.set_registry_at(key, ctx.real(f'v1_{i}', lo=0, reuse=True))
